@@ -33,7 +33,7 @@ fn replay(ctx: &mut Ctx, args: &Args, rec: &serde_json::Value, data: Option<&[u8
 
 pub fn run(ctx: &mut Ctx, _args: &Args) {
     ctx.policy = PanicPolicy::Any;
-    ctx.rule = "distinct cases (digest of the input) where: an optimiser input has a contour with both retained and omitted deltas; \
+    ctx.rule = "distinct cases (digest of the input; for the exhaustively enumerated optimiser inputs only every 16th digest is kept, the full count is events.iup_calls_with_mixed_contour) where: an optimiser input has a contour with both retained and omitted deltas; \
                 or a compiled font has a tuple with omitted points / shared tuple / shared point numbers; \
                 or a drawn (font, glyph, location) has an active region with a scalar strictly between 0 and 1 or with inferred deltas"
         .into();
@@ -62,9 +62,9 @@ pub fn run(ctx: &mut Ctx, _args: &Args) {
 
     // (ii) + (iii) fonts built by the harness
     let budgets: [(&'static str, usize, usize); 5] = [
-        ("small", 60_000, 400_000),
-        ("shared", 12_000, 80_000),
-        ("runs", 8_000, 50_000),
+        ("small", 60_000, 1_200_000),
+        ("shared", 12_000, 160_000),
+        ("runs", 8_000, 120_000),
         ("big", 320, 2_400),
         ("long-offsets", 48, 240),
     ];
